@@ -400,10 +400,10 @@ PROPS["C01"] = Prop(
     explanation="L2: each backend's real seal/unseal code runs over ideal primitives with key, RNG output, message, footer and assertion symbolic: sealing through the library's own nonce() path succeeds, has the spec's length and unseals to the same bytes. L3: the generic UnsealedToken::seal / Display / FromStr / SealedToken::unseal code of paseto-core runs over an arbitrary backend, showing the bytes a backend produced are exactly the bytes it is later asked to unseal, with footer and assertion unchanged.",
     functions=["paseto_core::tokens::{UnsealedToken::seal, dangerous_seal_with_nonce, SealedToken::unseal}", "paseto_core::encodings::{Display, FromStr for SealedToken}",
                "<backend>::core::{local,public}::{nonce, dangerous_seal_with_nonce, unseal, random, unsealing_key}"],
-    bounds={"quick": "per backend: local |m|=3 |f|=2 (|a|=1 where supported), public same; L3 shapes nonce 2/msg 1/out 3; unwind 150 with unwinding assertions",
-            "thorough": "adds |m| in {0,17,33} (AES block boundaries), empty footer/assertion, L3 shapes with footer/assertion, () footer cases"},
+    bounds={"quick": "per backend: local |m|=3 |f|=2 (|a|=1 where supported), public same (v3-aws-lc: sealing side only); L3: unit footer, token without footer; unwind 150 with unwinding assertions",
+            "thorough": "adds |m| in {0,17} (AES block boundary), empty footer/assertion, L3 shapes with footer/assertion, () footer cases"},
     outside=["paseto-v3-aws-lc: verification of public tokens and PKE are not reached (symbolic execution of the FFI wrappers' verify side does not finish, DESIGN.md 7.6); paseto-v1 public tokens and PKE (RSA is not modelled)",
-             "payloads longer than 33 bytes / more than one 64-byte ChaCha block (model bound); the quantifier's 1 MiB payloads",
+             "payloads longer than 17 bytes / more than one 64-byte ChaCha block (model bound); the quantifier's 1 MiB payloads",
              "the real primitives (only their contract is modelled); byte-level agreement between libraries"],
     models=L2_MODELS, assumptions=L2_ASSUME)
 
